@@ -9,9 +9,11 @@ git apply $demo/patch.diff || { echo "patch does not apply"; exit 2; }
 go build ./... || { echo "build fails"; exit 2; }
 go test -vet=off -count=1 . >/tmp/wt/$id.suite.log 2>&1; suite=$?
 cp $demo/demo_test.go $wt/zz_demo_test.go
-go test -vet=off -count=1 -run 'Demo|C[0-9][0-9]' . >/tmp/wt/$id.demo_with.log 2>&1; with=$?
+# run exactly the test functions the demo file defines
+pat=$(grep -h '^func Test' $demo/demo_test.go | sed 's/^func \(Test[A-Za-z0-9_]*\).*/\1/' | paste -sd'|')
+go test -vet=off -count=1 -run "^($pat)\$" . >/tmp/wt/$id.demo_with.log 2>&1; with=$?
 git checkout -q -- . 
-go test -vet=off -count=1 -run 'Demo|C[0-9][0-9]' . >/tmp/wt/$id.demo_without.log 2>&1; without=$?
+go test -vet=off -count=1 -run "^($pat)\$" . >/tmp/wt/$id.demo_without.log 2>&1; without=$?
 rm -f $wt/zz_demo_test.go
 git apply $demo/patch.diff
 echo "{\"suite_with_change_exit\": $suite, \"demo_with_change_exit\": $with, \"demo_without_change_exit\": $without}"
